@@ -421,7 +421,7 @@ func vsame(cap *Captures, want *vcaps, from int) bool {
 // the backtracking reference (leftmost start, then preference order), from every start position
 // 0..len; Matches (no captures) agrees on found; no call panics.
 //
-//symgo:harness prop=C37 tier=quick shards=16 tshards=32 timeout=400 ttimeout=1700 bounds=36_committed_patterns_(thorough_64)_each_with_a_hand-built_AST;subject_of_0..3_arbitrary_bytes_(thorough_0..4);start_positions_0..len outside=symbolic_patterns;longer_subjects;(?q)_(?m)_posix_classes;\<_\>_not_adjacent_to_\w;start_positions_outside_0..len;All;Replacement
+//symgo:harness prop=C37 tier=quick shards=4 tshards=16 timeout=400 ttimeout=1700 bounds=36_committed_patterns_(thorough_64)_each_with_a_hand-built_AST;subject_of_0..3_arbitrary_bytes_(thorough_0..4);start_positions_0..len outside=symbolic_patterns;longer_subjects;(?q)_(?m)_posix_classes;\<_\>_not_adjacent_to_\w;start_positions_outside_0..len;All;Replacement
 func VerifC37Match() {
 	src, root, pi := vpick()
 	s := vsubject()
@@ -472,7 +472,7 @@ func VerifC37Match() {
 // C37 LastMatch(s, pos): the match that starts at the largest position <= pos (pos in 0..len),
 // with the span and groups the reference finds there.
 //
-//symgo:harness prop=C37 tier=quick shards=16 tshards=32 timeout=400 ttimeout=1700 bounds=36_committed_patterns_(thorough_64);subject_of_0..3_arbitrary_bytes_(thorough_0..4);pos_0..len outside=symbolic_patterns;longer_subjects;pos_outside_0..len
+//symgo:harness prop=C37 tier=quick shards=4 tshards=16 timeout=400 ttimeout=1700 bounds=36_committed_patterns_(thorough_64);subject_of_0..3_arbitrary_bytes_(thorough_0..4);pos_0..len outside=symbolic_patterns;longer_subjects;pos_outside_0..len
 func VerifC37Last() {
 	src, root, pi := vpick()
 	s := vsubject()
@@ -508,22 +508,24 @@ func VerifC37Last() {
 // FirstMatch/LastMatch are reachable with any int. A position outside 0..len must not end in a
 // Go runtime error (slice/index out of range).
 //
-//symgo:harness prop=C37 tier=quick shards=4 timeout=300 ttimeout=900 bounds=36_committed_patterns_(thorough_64);subject_of_0..2_arbitrary_bytes;pos_in_{-1,len+1,len+2} outside=other_out-of-range_positions;what_is_returned_for_them
+//symgo:harness prop=C37 tier=quick shards=2 timeout=300 ttimeout=900 bounds=36_committed_patterns_(thorough_64);subject_of_0..1_arbitrary_bytes;pos_in_{-1,len+1,len+2} outside=other_out-of-range_positions;what_is_returned_for_them
 func VerifC37StartPos() {
 	src, _, pi := vpick()
-	s := rt.Str("s", rt.Pick("len", 3))
+	s := rt.Str("s", rt.Pick("len", 2))
 	pat := Compile(src)
 	rt.Reach("compiled")
 	rt.Observe("pat", pi)
 	var cap Captures
-	for _, pos := range []int{-1, len(s) + 1, len(s) + 2} {
-		ok := false
+	last := rt.Pick("api", 2) == 1
+	pos := []int{-1, len(s) + 1, len(s) + 2}[rt.Pick("pos", 3)]
+	ok := false
+	if last {
+		kind := rt.TryKind(func() { ok = pat.LastMatch(s, pos, &cap) })
+		rt.Observe("last", ok)
+		rt.Assert("startpos/last-no-runtime-error", kind != 2)
+	} else {
 		kind := rt.TryKind(func() { ok = pat.FirstMatch(s, pos, &cap) })
 		rt.Observe("first", ok)
 		rt.Assert("startpos/first-no-runtime-error", kind != 2)
-		ok = false
-		kind = rt.TryKind(func() { ok = pat.LastMatch(s, pos, &cap) })
-		rt.Observe("last", ok)
-		rt.Assert("startpos/last-no-runtime-error", kind != 2)
 	}
 }
